@@ -1,14 +1,10 @@
 package main
 
 import (
-	"fmt"
 	"go/ast"
 	"go/parser"
 	"go/token"
-	"sort"
 	"strings"
-
-	"github.com/traefik/yaegi/interp"
 )
 
 // ---- line-level reference for line breakpoints (go/parser reading of the program + the tape) ----
@@ -16,12 +12,11 @@ import (
 // The node-level property (a marked node that executes is reported) takes the marks SetBreakpoints
 // makes for granted. What a *line* request should mean is read off the source instead:
 //
-//	validity: a request on a line where a statement begins is valid;
-//	visits:   every visit of a requested line is reported. A visit is a maximal run of consecutively
-//	          executed nodes of one runCfg activation that lie on the line (activations of callees in
-//	          between do not end it; nodes without position or without action — the join nodes of
-//	          compound statements — are transparent); it is reported when the
-//	          debugger stops with reason break before one of its nodes.
+//	validity: a request on a line where a statement begins that evaluates something is valid (`switch {`,
+//	          `for {`, a condition made of constants, labels, `default:`, `func f() {` evaluate nothing);
+//	          so is a request on a line on which a step of the program executes during the run (main.go);
+//	stops:    one break stop each time an activation enters a requested line, before anything on the
+//	          line runs: this is the reference debugger of ref.go.
 
 type stmtT struct {
 	Kind string // assign incdec expr return return0 branch if for0 forc for3 range switch switch0 switchid typeswitch select decl go defer send case case0
@@ -48,12 +43,75 @@ func stmtLines(src string) (map[int]string, bool) {
 			}
 		}
 	}()
+	// Statements under a condition that folds to a constant may be dead code, for which nothing is generated
+	// (as in compiled Go): the lines of such a statement are left out of the validity rule.
+	unsure := map[int]bool{}
+	exclude := func(n ast.Node) {
+		for l := fset.Position(n.Pos()).Line; l <= fset.Position(n.End()).Line; l++ {
+			unsure[l] = true
+		}
+	}
+	genericMethod := map[int]bool{}
+	defer func() {
+		for l := range unsure {
+			delete(out, l)
+		}
+		for l := range genericMethod {
+			if out[l] != "" {
+				out[l] = "gm:" + out[l]
+			}
+		}
+	}()
 	ast.Inspect(f, func(n ast.Node) bool {
 		switch x := n.(type) {
 		case *ast.FuncDecl:
 			sameLine(x.Type, x.Body)
+			if x.Recv != nil && len(x.Recv.List) == 1 && x.Body != nil {
+				t := x.Recv.List[0].Type
+				if st, ok := t.(*ast.StarExpr); ok {
+					t = st.X
+				}
+				switch t.(type) {
+				case *ast.IndexExpr, *ast.IndexListExpr:
+					// a method of a generic type (the receiver names its type parameters)
+					for l := fset.Position(x.Body.Pos()).Line; l <= fset.Position(x.Body.End()).Line; l++ {
+						genericMethod[l] = true
+					}
+				}
+			}
+			if x.Type.TypeParams != nil && len(x.Type.TypeParams.List) > 0 {
+				exclude(x) // a template: only its instances execute (the executed-line rule covers them)
+			}
 		case *ast.FuncLit:
 			sameLine(x.Type, x.Body)
+		case *ast.BlockStmt:
+			// a jump under a constant test makes the rest of the block dead as well
+			for _, st := range x.List {
+				if is, ok := st.(*ast.IfStmt); ok && hasConstantTest(is.Cond) {
+					for l := fset.Position(st.Pos()).Line; l <= fset.Position(x.End()).Line; l++ {
+						unsure[l] = true
+					}
+					break
+				}
+			}
+		case *ast.IfStmt:
+			if hasConstantTest(x.Cond) {
+				exclude(x)
+			}
+		case *ast.ForStmt:
+			if x.Cond != nil && hasConstantTest(x.Cond) {
+				exclude(x)
+			}
+		case *ast.SwitchStmt:
+			if x.Tag == nil {
+				for _, cl := range x.Body.List {
+					for _, e := range cl.(*ast.CaseClause).List {
+						if hasConstantTest(e) {
+							exclude(x)
+						}
+					}
+				}
+			}
 		}
 		st, ok := n.(ast.Stmt)
 		if !ok {
@@ -76,6 +134,9 @@ func stmtLines(src string) (map[int]string, bool) {
 			kind = "branch"
 		case *ast.IfStmt:
 			kind = "if"
+			if x.Init == nil && constantExpr(x.Cond) {
+				kind = "if0" // the condition is folded: nothing is evaluated on the line
+			}
 		case *ast.ForStmt:
 			switch {
 			case x.Init != nil || x.Post != nil:
@@ -141,6 +202,41 @@ func stmtLines(src string) (map[int]string, bool) {
 	return out, true
 }
 
+// constantExpr: the expression mentions no variable and no call (literals, true/false and operators only).
+func constantExpr(e ast.Expr) bool {
+	c := true
+	ast.Inspect(e, func(n ast.Node) bool {
+		switch x := n.(type) {
+		case *ast.Ident:
+			if x.Name != "true" && x.Name != "false" {
+				c = false
+			}
+		case *ast.CallExpr, *ast.FuncLit, *ast.CompositeLit:
+			c = false
+		}
+		return c
+	})
+	return c
+}
+
+// hasConstantTest: the condition is, or contains as an operand of && or ||, an expression made of constants.
+func hasConstantTest(e ast.Expr) bool {
+	if constantExpr(e) {
+		return true
+	}
+	switch x := e.(type) {
+	case *ast.ParenExpr:
+		return hasConstantTest(x.X)
+	case *ast.UnaryExpr:
+		return hasConstantTest(x.X)
+	case *ast.BinaryExpr:
+		if x.Op == token.LAND || x.Op == token.LOR {
+			return hasConstantTest(x.X) || hasConstantTest(x.Y)
+		}
+	}
+	return false
+}
+
 // hasGenericFunc: the program declares a function with type parameters.
 func hasGenericFunc(src string) bool {
 	fset := token.NewFileSet()
@@ -181,11 +277,13 @@ func invalidStatementLines(kinds map[int]string, bps []bpT, valid []bool) map[st
 		ok := k < len(valid) && valid[k]
 		k++
 		kind := kinds[b.Line]
-		if kind == "" || kind == "case" || kind == "case0" || kind == "switch0" || kind == "for0" || ok {
+		if kind == "" || kind == "case" || kind == "case0" || kind == "switch0" || kind == "for0" || kind == "if0" || ok {
 			continue
 		}
 		class := "bp-invalid-on-" + kind + "-line"
 		switch {
+		case strings.HasPrefix(kind, "gm:"):
+			class = "bp-in-method-of-generic-type"
 		case jumpKind(kind):
 			class = "bp-on-jump-statement-line"
 		case kind == "switchid":
@@ -194,123 +292,4 @@ func invalidStatementLines(kinds map[int]string, bps []bpT, valid []bool) map[st
 		out[class] = append(out[class], b.Line)
 	}
 	return out
-}
-
-// unreportedVisits: for every requested line that is valid, the visits (see above) during which the debugger
-// made no break stop; by class of the input line. Returns also the number of visits looked at.
-func unreportedVisits(dump []interp.VerifC19Node, kinds map[int]string, bps []bpT, valid []bool, tape []itemT, stops []eventT) (out map[string][]string, visits, late int) {
-	want := map[int]bool{}
-	k := 0
-	for _, b := range bps {
-		if b.Func == "" && k < len(valid) && valid[k] {
-			want[b.Line] = true
-		}
-		k++
-	}
-	out = map[string][]string{}
-	if len(want) == 0 {
-		return out, 0, 0
-	}
-	brkAt := map[int64]bool{}
-	for _, e := range stops {
-		if e.Reason == "brk" {
-			brkAt[e.Step] = true
-		}
-	}
-	type act struct {
-		line     int  // line of the last positioned node executed in this activation (0: none yet)
-		reported bool // the current visit has a break stop
-		from     int64
-	}
-	var stack []*act
-	missing := map[int][]int64{}
-	panicked := map[int][]int64{} // visits that end with the panic of the program
-	closeVisit := func(a *act, byPanic bool) {
-		if a.line != 0 && want[a.line] {
-			visits++
-			switch {
-			case a.reported:
-			case byPanic:
-				panicked[a.line] = append(panicked[a.line], a.from)
-			default:
-				missing[a.line] = append(missing[a.line], a.from)
-			}
-		}
-	}
-	var step int64
-	exec := func(a *act, node int) {
-		n := dump[node]
-		if n.PosValid && n.Action != "nop" {
-			if n.Line != a.line {
-				closeVisit(a, false)
-				a.line, a.reported, a.from = n.Line, false, step
-			}
-			if brkAt[step] {
-				if !a.reported && a.from != step && want[a.line] {
-					late++ // the stop comes after nodes of the line have executed
-				}
-				a.reported = true
-			}
-		}
-		step++
-	}
-	for _, it := range tape {
-		switch it.Kind {
-		case 'c':
-			if dump[it.Node].Code == 0 {
-				continue
-			}
-			a := &act{}
-			stack = append(stack, a)
-			exec(a, it.Node)
-		case 'n':
-			if len(stack) > 0 {
-				exec(stack[len(stack)-1], it.Node)
-			}
-		case 'z':
-			if len(stack) > 0 {
-				closeVisit(stack[len(stack)-1], false)
-				stack = stack[:len(stack)-1]
-			}
-		case 'p':
-			for i := len(stack) - 1; i >= 0; i-- {
-				closeVisit(stack[i], true)
-			}
-			stack = nil
-		}
-	}
-	var lines []int
-	for l := range missing {
-		lines = append(lines, l)
-	}
-	sort.Ints(lines)
-	for _, l := range lines {
-		kind := kinds[l]
-		class := "bp-visit-unreported-on-" + kind + "-line"
-		switch kind {
-		case "for3":
-			class = "bp-on-for-clause-line"
-		case "case0":
-			class = "bp-on-tagless-case-line"
-		case "onelinefunc":
-			class = "bp-on-line-of-function-signature"
-		case "":
-			class = "bp-visit-unreported-on-continuation-line"
-		}
-		var at []string
-		for _, s := range missing[l] {
-			at = append(at, fmt.Sprint(s))
-		}
-		out[class] = append(out[class], fmt.Sprintf("%d@%s", l, strings.Join(at, "/")))
-	}
-	lines = lines[:0]
-	for l := range panicked {
-		lines = append(lines, l)
-	}
-	sort.Ints(lines)
-	for _, l := range lines {
-		// decidable on the input: the plain run panics while a requested line is being visited
-		out["bp-line-panics-before-stop"] = append(out["bp-line-panics-before-stop"], fmt.Sprintf("%d@%d", l, panicked[l][0]))
-	}
-	return out, visits, late
 }
